@@ -74,7 +74,7 @@ def cfgOf (c : Case) : Cfg :=
   { resume := c.resumed, certRequested := c.role == "server" && requested c,
     emptyOK := emptyAllowed c, ecdhe := c.ecdhe }
 
-def stdFlows (c : Case) : List (List Kind) :=
+def stdFlows (c : Case) : List (List StandardFlow.Item) :=
   let base :=
     if c.role == "client" then
       (if c.resumed then StandardFlow.clientResumed else StandardFlow.clientFull ⟨c.ecdhe⟩)
@@ -82,10 +82,8 @@ def stdFlows (c : Case) : List (List Kind) :=
       (if c.resumed then StandardFlow.serverResumed
        else StandardFlow.serverFull ⟨requested c, emptyAllowed c⟩)
   if c.stack == "dtlcp" then
-    (if c.role == "client" then
-      StandardFlow.dtlcpClientPrefixes.flatMap (fun p => base.map (p ++ ·))
-     else StandardFlow.dtlcpServer base)
-  else base
+    (if c.role == "client" then StandardFlow.dtlcpClient base else StandardFlow.dtlcpServer base)
+  else base.map StandardFlow.plain
 
 def showObs : Obs → String
   | .completed i => s!"completed at={i}"
@@ -93,8 +91,8 @@ def showObs : Obs → String
   | .pending => "pending"
 
 /-- first index j with w[0..j] in the language -/
-def firstLegal (flows : List (List Kind)) (w : List Kind) : Option Nat :=
-  (List.range w.length).find? (fun j => StandardFlow.inLang flows (w.take (j + 1)))
+def firstLegal (flows : List (List StandardFlow.Item)) (w : List Kind) : Option Nat :=
+  (List.range w.length).find? (fun j => StandardFlow.inLangI flows (w.take (j + 1)))
 
 def withoutWarn (w : List Kind) : List Kind := w.filter (· != .warningAlert)
 
@@ -111,14 +109,14 @@ def judge (cs o : String) : Option Verdict := do
     match ot.head?, kvNat ot "at" with
     | some "completed", some i =>
       let pre := c.word.take (i + 1)
-      if StandardFlow.inLang flows pre then none
+      if StandardFlow.inLangI flows pre then none
       else
         -- name the F1 shape: legal once a ServerKeyExchange is put back after the Certificate
         let core := withoutWarn pre
-        let patched := match core with
-          | a :: b :: rest => a :: b :: Kind.serverKeyExchange :: rest
-          | l => l
-        if c.role == "client" && !c.resumed && StandardFlow.inLang flows patched && patched.length ≤ 7 then
+        let patched := match core.span (· != Kind.certificate) with
+          | (a, b :: rest) => a ++ b :: Kind.serverKeyExchange :: rest
+          | (a, []) => a
+        if c.role == "client" && !c.resumed && StandardFlow.inLangI flows patched then
           some ("no-skx", s!"client completed after {showWord pre}: no ServerKeyExchange, the server never proved possession of its signing key")
         else some ("illegal-order", s!"{c.role} completed after {showWord pre}, which is not a legal {if c.resumed then "resumed" else "full"} flow")
     | some h, _ =>
